@@ -22,7 +22,7 @@ For each change (call them a and b) deliver, in the directory {out}/{pid}a/ resp
 
 How to check the existing tests: from the worktree root run
   cd {wt} && /venv/bin/python -m pytest -q -p no:cacheprovider tests/test_dtcwt.py tests/test_dwt1d.py tests/test_dwt.py tests/test_scatnet_fwd.py
-On the unchanged tree this gives exactly '6 failed, 241 passed' (the 6 failures are NameError: barbara tests in tests/test_dtcwt.py that fail on the unchanged tree too; with your change the result must be the same 241 passed and the same 6 failed; the other test files under tests/ fail on the unchanged tree already because a data file is missing: ignore them). The full run takes several minutes, so while iterating run only the most relevant test file, and run the full four-file command once per finished change to confirm 241 passed. Verify yourself: demo passes without the change (use `git stash` or `git apply -R`), fails with it, tests pass with it. Only one change may be applied in the worktree at a time; leave the worktree clean (git checkout -- .) when you finish.
+On the unchanged tree this gives exactly '6 failed, 241 passed' (the 6 failures are NameError: barbara tests in tests/test_dtcwt.py that fail on the unchanged tree too; with your change the result must be the same 241 passed and the same 6 failed; the other test files under tests/ fail on the unchanged tree already because a data file is missing: ignore them). The full run takes several minutes, so while iterating run only the most relevant test file, and run the full four-file command once per finished change to confirm 241 passed. Verify yourself: demo passes without the change (save your change with `git diff > patch.diff`, then `git checkout -- .` to remove it and `git apply patch.diff` to re-apply it; do NOT use `git stash`: the stash is shared between all worktrees of the repository and other agents are working in sibling worktrees), fails with it, tests pass with it. Only one change may be applied in the worktree at a time; leave the worktree clean (git checkout -- .) when you finish.
 
 If the property is already violated by the unchanged library for some inputs, do not rely on that: your change must introduce a NEW violation for inputs on which the unchanged library satisfies the property (the demo must PASS on the unchanged library).
 
